@@ -49,6 +49,8 @@ func (r *Rand) Chance(pct int) bool { return r.Intn(100) < pct }
 
 func (r *Rand) Pick(xs []int) int { return xs[r.Intn(len(xs))] }
 
+func (r *Rand) PickS(xs []string) string { return xs[r.Intn(len(xs))] }
+
 func (r *Rand) Bytes(n int) []byte {
 	b := make([]byte, n)
 	for i := range b {
@@ -184,8 +186,8 @@ func (t *Writer) End() {
 	}
 	if len(s.Samples) < 3 {
 		smp := strings.Join(t.caseBuf, "\n")
-		if len(smp) > 1500 {
-			smp = smp[:1500] + " ..."
+		if len(smp) > 700 {
+			smp = smp[:700] + " ..."
 		}
 		s.Samples = append(s.Samples, smp)
 	}
